@@ -60,6 +60,7 @@ type vrCase struct {
 	Pipe     bool              `json:"pipe"`     // the model streams through a pipe fed by a goroutine instead of an array reader
 	Nested   bool              `json:"nested"`   // the agent's exported graph runs as a node of a parent graph (ExportGraph)
 	Overlap  string            `json:"overlap"`  // "" the two runs follow each other | "generate-first" | "stream-first": they overlap in time
+	Early    bool              `json:"early"`    // a third run: Stream, the caller reads one chunk and closes the agent's output stream
 	Order    map[string][]int  `json:"order"`    // script message number -> completion order of its tool result streams (wide messages)
 }
 
@@ -79,6 +80,8 @@ type vrSub struct {
 	arrived chan struct{} // closed when the first model call of this run has arrived at the model
 	waitFor *vrSub        // overlap: the first model call of this run returns only after that run's first model call has arrived
 	rounds  map[int]*vrRound
+	probe     bool  // early-close probe: text answers are streamed character by character through an unbuffered pipe
+	producers int32 // model producer goroutines of this run that have not returned yet
 }
 
 type vrRound struct{ closed int32 } // tool result streams of this tools round closed so far (gated completion order)
@@ -244,6 +247,23 @@ func (m *vrModel) Stream(ctx context.Context, input []*schema.Message, _ ...mode
 		return nil, err
 	}
 	chunks := vrChunks(s, m.r.c.Chunking)
+	if sub := m.r.sub(ctx); sub != nil && sub.probe && len(s.Calls) == 0 && len(s.Content) > 0 {
+		// the producer keeps streaming text while the caller stops reading: it must be released when the agent's stream is closed
+		sr, sw := schema.Pipe[*schema.Message](0)
+		atomic.AddInt32(&sub.producers, 1)
+		go func() {
+			defer atomic.AddInt32(&sub.producers, -1)
+			defer sw.Close()
+			for rep := 0; rep < 3; rep++ {
+				for _, ch := range s.Content {
+					if sw.Send(&schema.Message{Role: schema.Assistant, Content: string(ch)}, nil) {
+						return
+					}
+				}
+			}
+		}()
+		return sr, nil
+	}
 	if !m.r.c.Pipe {
 		return schema.StreamReaderFromArray(chunks), nil
 	}
@@ -395,7 +415,7 @@ func vrRunCase(c *vrCase) []string {
 	}
 	lines := []string{vrLine("case", "id", c.ID, "msgs", msgs, "script", script, "tools", strs(c.Tools), "rd", strs(c.Rd), "maxstep", c.MaxStep,
 		"modifier", c.Modifier, "inplace", c.Inplace, "checker", c.Checker, "chunking", c.Chunking, "api", c.API, "pipe", c.Pipe, "nested", c.Nested,
-		"overlap", c.Overlap, "order", order)}
+		"overlap", c.Overlap, "order", order, "early", c.Early)}
 	ctx0 := context.Background()
 
 	// ONE agent for both runs of the case
@@ -558,6 +578,27 @@ func vrRunCase(c *vrCase) []string {
 		lines = append(lines, s.lines...)
 		lines = append(lines, vrLine("endrun"))
 		s.mu.Unlock()
+	}
+	if c.Early {
+		// a third run: Stream, read one chunk of the answer, close.  Observation: are the model's producer goroutines released?
+		ps := &vrSub{mode: "probe", arrived: make(chan struct{}), rounds: map[int]*vrRound{}, probe: true}
+		func() {
+			defer func() { _ = recover() }()
+			ctx := context.WithValue(ctx0, vrSubKey{}, ps)
+			sr, err := stream(ctx, inputOf("generate"))
+			got := 0
+			if err == nil && sr != nil {
+				if _, e := sr.Recv(); e == nil {
+					got = 1
+				}
+				sr.Close()
+			}
+			deadline := time.Now().Add(1500 * time.Millisecond)
+			for atomic.LoadInt32(&ps.producers) > 0 && time.Now().Before(deadline) {
+				time.Sleep(200 * time.Microsecond)
+			}
+			lines = append(lines, vrLine("early", "released", atomic.LoadInt32(&ps.producers) == 0, "read", got, "failed", err != nil))
+		}()
 	}
 	r.mu.Lock()
 	for _, l := range r.stray {
